@@ -29,19 +29,13 @@ func (m *Map[K, V]) ToJSON() ([]byte, error) {
 	index := 0
 
 	for it.Next() {
-		km, err := json.Marshal(it.Key())
+		// marshal the pair as a one-entry object so that the key is encoded
+		// as a JSON object key (always a string), then drop the braces
+		entry, err := json.Marshal(map[K]V{it.Key(): it.Value()})
 		if err != nil {
 			return nil, err
 		}
-		buf.Write(km)
-
-		buf.WriteRune(':')
-
-		vm, err := json.Marshal(it.Value())
-		if err != nil {
-			return nil, err
-		}
-		buf.Write(vm)
+		buf.Write(entry[1 : len(entry)-1])
 
 		if index != lastIndex {
 			buf.WriteRune(',')
